@@ -46,6 +46,7 @@ func runC06(r *simrt.Run) {
 	wl.MaxOps = 1 + t.Choose(5)
 	f := nomsim.NewFork(w, wl, t.Choose(6), true, true)
 	f.Swing = t.Bool()
+	f.Lifecycles = t.Bool()
 	common := 3 + t.Choose(30)
 	split := 2 + t.Choose(40)
 	if r.Tier == "thorough" {
